@@ -21,7 +21,7 @@ func init() {
 			Rule: "M: every line of <=4 (quick) / 5 (thorough, reduced alphabet at 5) items from: text chunks {a, xy, é, 日本, 😀, space, \"a b\"}, \\[ and \\], markers over names {a, b, é1} (open, close by name, close all, self-closing) with property sets covering integer, decimals (1.05, 2.50, 0.007), booleans in any case, bare word, quoted string with spaces and escaped quote, shorthand [a=v], 2-3 properties, trimwhitespace=false, " +
 				"replacement markers select / plural / ordinal / nomarkup (self-closing and closed by name, every ordinal case value, % placeholders, multi-byte replacement text), with nested / overlapping / repeated arrangements by well-formedness-preserving choices; x optional character prefix (ASCII / multi-byte) x optional leading / trailing whitespace (for <=3 items); " +
 				"S: every marker structure of <=8 (quick) / 11 (thorough) markers over {open a, open b, close a, close b, close all}, each followed by a character of text (same-name markers open at the same time: first-in-first-out and last-in-first-out pairings both accepted, but removing the markers of the other name must not change the pairing); the <=3-item lines are also shown through the runner and Line.Attributes compared; " +
-				"V: every numeric property value i.f over a grid of integer parts (incl. leading zeros, 2^52+1, 2^53+1 in the thorough tier) x every fraction string of <=3 (quick) / 4 (thorough) digits plus long fractions of up to 40 digits, in four syntactic positions, expected value = the decimal meaning of the characters written; runner / runner-options: the short lines shown as dialogue lines and as the 2-3 options of one choice (all options are prepared by one parser and returned together); " +
+				"RV: plural and ordinal markers over every value 0..130 and six large ones in three positions; V: every numeric property value i.f over a grid of integer parts (incl. leading zeros, 2^52+1, 2^53+1 in the thorough tier) x every fraction string of <=3 (quick) / 4 (thorough) digits plus long fractions of up to 40 digits, in four syntactic positions, expected value = the decimal meaning of the characters written; runner / runner-options: the short lines shown as dialogue lines and as the 2-3 options of one choice (all options are prepared by one parser and returned together); " +
 				"constructive oracle (plain text, per marker name / typed properties / position / length in characters / TextForAttribute); a case is one line; non-trivial = contains at least one marker",
 			StatesMean:  "distinct generated lines; transitions = ParseMarkup calls (plus Next calls for the runner part)",
 			Assumptions: []string{"constructions without a single meaning under the property are not checked: a self-closing marker between whitespace (one following space may be trimmed), a colon outside the prefix, leading whitespace before a prefix", "attributes of replacement markers themselves, attribute order and SourcePosition are not constrained here", "markers left open at the end of the line are C14/C15 material"},
@@ -328,6 +328,57 @@ func runC13(ctx *report.Ctx) {
 			checkLine(ctx, c, "M5", l, markers > 0, nil)
 		})
 	}
+
+	// RV: plural and ordinal markers over every value 0..130 and a few large ones (English categories: cardinal "one"
+	// for exactly 1, ordinal one / two / few / other by the last two digits), alone, after multi-byte text and inside a marker
+	part(ctx, "RV", -1, func(c *explore.Chooser) {
+		vals := 131 + 6
+		k := c.Choose(vals, "value")
+		n := k
+		if k >= 131 {
+			n = []int{1000, 1001, 1011, 1012, 1013, 1000000}[k-131]
+		}
+		kind := c.Choose(2, "kind")
+		pos := c.Choose(3, "position")
+		if !c.Mine() {
+			return
+		}
+		var src, text string
+		if kind == 0 {
+			src, text = fmt.Sprintf(`[plural value=%d one="%% apple" other="%% apples" /]`, n), fmt.Sprintf("%d apples", n)
+			if n == 1 {
+				text = "1 apple"
+			}
+		} else {
+			suf := "th"
+			switch {
+			case n%10 == 1 && n%100 != 11:
+				suf = "st"
+			case n%10 == 2 && n%100 != 12:
+				suf = "nd"
+			case n%10 == 3 && n%100 != 13:
+				suf = "rd"
+			}
+			src, text = fmt.Sprintf(`[ordinal value=%d one="%%st" two="%%nd" few="%%rd" other="%%th" /]`, n), fmt.Sprintf("%d%s", n, suf)
+		}
+		l := &mg.Line{}
+		switch pos {
+		case 1:
+			l.Text("日本 ")
+		case 2:
+			l.Open("a", nil, false)
+		}
+		l.Replacement(src, text)
+		if pos == 2 {
+			l.Text("x")
+			l.Close("a")
+		}
+		if !l.Finish() || l.Ambiguous != "" {
+			ctx.HarnessError("C13 RV: construction not closed: %s", l.Src.String())
+			return
+		}
+		checkLine(ctx, c, "RV", l, true, nil)
+	})
 
 	// V: numeric property values. Every decimal literal i.f over a grid of integer parts and every fraction
 	// string of <=3 (quick) / 4 (thorough) digits, long fractions of up to 40 digits, and integers with
